@@ -92,3 +92,41 @@ Definition save_with (wa : script -> bytes -> wres * bytes * script)
   | WOk =>
     let '(r2, d2, _) := run_cw wa post c1 in (r2, d1 ++ d2, mutate mode ids st0)
   end.
+
+(* ---- IncrementalDocument::save_internal (src/writer.rs) ----
+   struct IncrementalDocument { bytes_documents: Vec<u8>, prev_documents: Document, pub new_document: Document }.
+   save_internal reads `bytes_documents` and `prev_documents` through the `&self` getters get_prev_documents_bytes() /
+   get_prev_documents() only (the latter for reference_table.cross_reference_type, which decides the format [mode]:
+   it is the PREVIOUS document's, not a parameter of the save), so neither can change; `new_document` is mutated at
+   the same single point as in the plain save (`self.new_document.write_trailer(..)` resp.
+   `self.new_document.write_cross_reference_stream(..)`).  There is NO raise of max_id to the largest object number
+   here (that statement exists in Document::save_internal only): [top = None], [raise_max_id None st = st].
+   The state: the previous bytes and (max_id, trailer) of new_document. *)
+Record istate := { is_prev : bytes; is_new : sstate }.
+
+(* one incremental save.
+     let prev_document_bytes = self.get_prev_documents_bytes();
+     target.inner.write_all(prev_document_bytes)?;                        -- [cw_write_all_after]: around the counter;
+     target.bytes_written += prev_document_bytes.len() - header_offset;      an error returns at once, nothing else happened
+     ... Xref::new(self.new_document.max_id + 1, prev type) ...
+   [pre]  = `writeln!(target)?` when the previous bytes do not end in '\n', the "%PDF-" line, the binary mark, the objects
+            of new_document, and in the table format the cross-reference table (Writer::write_xref), each under `?`;
+   then the mutation (write_trailer: Size / write_cross_reference_stream: max_id += 1, Type Size W Index, Filter, Length);
+   [post] = "trailer\n" + dictionary resp. the cross-reference stream object, then the startxref lines.
+   Result: what save_to returns, the bytes the sink holds, the IncrementalDocument afterwards. *)
+Definition save_inc_with (wa : script -> bytes -> wres * bytes * script)
+           (mode : xmode) (ids : list N) (pre post : list bytes) (st : istate) (s : script)
+  : wres * bytes * istate :=
+  let prev := is_prev st in
+  let '(r0, d0, c0) := cw_write_all_after wa {| cw_inner := s; cw_count := 0 |} prev in
+  match r0 with
+  | WErr e => (WErr e, d0, st)
+  | WOk =>
+    let '(r1, d1, c1) := run_cw wa pre c0 in
+    match r1 with
+    | WErr e => (WErr e, d0 ++ d1, st)
+    | WOk =>
+      let '(r2, d2, _) := run_cw wa post c1 in
+      (r2, d0 ++ d1 ++ d2, {| is_prev := prev; is_new := mutate mode ids (is_new st) |})
+    end
+  end.
